@@ -536,3 +536,124 @@ impl<'a> FromOctets<'a> for WipingBuf {
         WipingBuf(s.to_vec())
     }
 }
+
+/// A conforming owning reader on a live receive queue: at any moment only the first `vis` octets
+/// of the stream have arrived, `len()` reports what has arrived and not yet been consumed, and
+/// more octets arrive (`per_call` at a time) before each call from call number `start_call` on.
+/// Every request is served against what has arrived at that moment; sub-readers are fixed windows.
+/// The message being decoded is complete before its decode starts (`deliver_upto`), so what
+/// arrives during the decode are only octets behind its declared end.
+pub struct LiveQueueReader {
+    data: Rc<Vec<u8>>,
+    pos: usize,
+    vis: std::cell::Cell<usize>,
+    top: bool,
+    calls: std::cell::Cell<u64>,
+    arrivals: std::cell::Cell<u64>,
+    start_call: u64,
+    per_call: usize,
+}
+
+impl LiveQueueReader {
+    pub fn new(stream: &[u8], visible: usize, start_call: u64, per_call: usize) -> Self {
+        LiveQueueReader {
+            data: Rc::new(stream.to_vec()),
+            pos: 0,
+            vis: std::cell::Cell::new(visible.min(stream.len())),
+            top: true,
+            calls: Default::default(),
+            arrivals: Default::default(),
+            start_call,
+            per_call,
+        }
+    }
+    /// make sure the first `n` octets of the stream have arrived
+    pub fn deliver_upto(&mut self, n: usize) {
+        self.vis.set(self.vis.get().max(n.min(self.data.len())));
+    }
+    /// octets of the whole stream (arrived or not) behind the read position
+    pub fn total_remaining(&self) -> usize {
+        self.data.len() - self.pos
+    }
+    /// number of calls before which octets arrived
+    pub fn arrivals(&self) -> u64 {
+        self.arrivals.get()
+    }
+    /// octets arrive before the call is served (also before `len()` / `is_empty()`)
+    fn arrive(&self) {
+        let c = self.calls.get();
+        self.calls.set(c + 1);
+        if !self.top || c < self.start_call || self.per_call == 0 {
+            return;
+        }
+        let v = self.vis.get();
+        if v < self.data.len() {
+            self.vis.set((v + self.per_call).min(self.data.len()));
+            self.arrivals.set(self.arrivals.get() + 1);
+        }
+    }
+    fn take<const N: usize>(&mut self) -> [u8; N] {
+        self.arrive();
+        let vis = self.vis.get();
+        let mut out = [0u8; N];
+        for (k, o) in out.iter_mut().enumerate() {
+            if self.pos + k < vis {
+                *o = self.data[self.pos + k];
+            }
+        }
+        self.pos = (self.pos + N).min(vis);
+        out
+    }
+}
+
+impl Reader<Vec<u8>> for LiveQueueReader {
+    fn is_empty(&self) -> bool {
+        self.arrive();
+        self.vis.get() == self.pos
+    }
+    fn len(&self) -> usize {
+        self.arrive();
+        self.vis.get() - self.pos
+    }
+    fn subreader(&mut self, length: usize) -> Self {
+        self.arrive();
+        let k = length.min(self.vis.get() - self.pos);
+        let s = LiveQueueReader {
+            data: self.data.clone(),
+            pos: self.pos,
+            vis: std::cell::Cell::new(self.pos + k),
+            top: false,
+            calls: Default::default(),
+            arrivals: Default::default(),
+            start_call: 0,
+            per_call: 0,
+        };
+        self.pos += k;
+        s
+    }
+    fn bytes(&mut self, length: usize) -> Option<Vec<u8>> {
+        self.arrive();
+        if length > self.vis.get() - self.pos {
+            return None;
+        }
+        let v = self.data[self.pos..self.pos + length].to_vec();
+        self.pos += length;
+        Some(v)
+    }
+    unsafe fn read_u8_unchecked(&mut self) -> u8 {
+        self.take::<1>()[0]
+    }
+    unsafe fn read_u16_be_unchecked(&mut self) -> u16 {
+        u16::from_be_bytes(self.take::<2>())
+    }
+    unsafe fn read_u32_be_unchecked(&mut self) -> u32 {
+        u32::from_be_bytes(self.take::<4>())
+    }
+    unsafe fn read_u64_be_unchecked(&mut self) -> u64 {
+        u64::from_be_bytes(self.take::<8>())
+    }
+    fn skip_bytes(&mut self, length: usize) {
+        self.arrive();
+        self.pos = (self.pos + length).min(self.vis.get());
+    }
+}
